@@ -57,7 +57,7 @@ PROPS = {
                     "and appends the exception to the list that becomes Stack.error; every pop/popleft/[0]/[-1] on the engine's queues must be dominated by a non-emptiness test (CFG must-dataflow); "
                     "a frame taken from the queue is yielded on every non-raising path; the error list maps to None / the exception / an ExceptionGroup by length; every local is definitely assigned "
                     "on all paths including exceptional edges; every remaining call is on a reviewed allowlist (an unlisted call makes the check undecided, exit 2).",
-        decides=["CONT-1", "CONT-2", "CONT-3", "CONT-4", "CONT-5", "DEF-1", "CONT-W", "VER-4"],
+        decides=["CONT-1", "CONT-2", "CONT-3", "CONT-4", "CONT-5", "DEF-1", "CONT-W", "TRUTH-2", "GLUE-12", "GLUE-13", "VER-4"],
         not_decided=["that .error survives formatting", "pairs of faults interacting", "warnings escalated to errors by a -W error filter", "AssertionError from the engine's own asserts (argued from its invariants, not checked)"],
         assumptions=BASE_ASSUME + ["hook results documented as sequences behave as sequences (len/reversed/iteration do not raise)"],
         level_text="Static discipline check: the property is a per-call-site try/except discipline, which is visible in the shape of the code on every path; the rules enumerate every call site and every queue access of the engine on each run. "
@@ -71,8 +71,8 @@ PROPS = {
         explanation="Exhaustiveness of the `as`-target decoder against the compilers: the set of opnames with a (non-raising) case in describe_assignment_target is compared with every opname that the compiler of each supported interpreter "
                     "emits in the store sequence of an always-rendered target (387 generated targets x 4 scopes x 4 interpreters, plus every always-rendered `as` target of every with statement of the 3.11 and 3.12 standard libraries, delimited by instruction source positions; compile+dis only); with-prologue lengths and fillers per interpreter (16 generated layouts plus every with statement of those standard libraries); "
                     "start_line is taken from the line tracking updated before the with-opcode test; the local-name fallback applies only when varname is None and obj is known, by identity.",
-        decides=["OPC-2", "OPC-3", "OPC-3b", "LINE-1", "FALL-1", "VER-1"],
-        not_decided=["the per-opcode semantics of the symbolic stack machine", "data-dependent skips", "the 'static leg' over the standard library (would run analyze_with_blocks: out of family)"],
+        decides=["OPC-2", "OPC-2b", "OPC-3", "OPC-3b", "OPC-9", "OPC-11", "LINE-1", "FALL-1", "VER-1"],
+        not_decided=["the effect of decoder cases for opnames outside OPC-11's reference table", "data-dependent skips", "the 'static leg' over the standard library (would run analyze_with_blocks: out of family)"],
         assumptions=BASE_ASSUME + FACT_ASSUME + ["the generated target grammar (names, attributes, constant/name subscripts, positional calls, (starred) tuple/list unpacking, nesting <= 2) covers the documented always-rendered set"],
         level_text="Static exhaustiveness check of a hand-written decoder against fact tables of compiler output for each supported interpreter. Found N1 (PUSH_NULL unhandled on 3.11/3.12), repaired in /repo.",
         level_note="Compiler facts come from compile()+dis on each interpreter (nothing executed, no stackscope code involved).",
@@ -136,7 +136,7 @@ PROPS = {
         explanation="extract_outermost and extract_child consume the same generator function with (stackitem, fresh error list) and extract_outermost returns its first item; in extract_outermost's StopIteration handler every path raises "
                     "(the recorded error, an ExceptionGroup of them, or a new RuntimeError, by count); the package's only Frame(...) construction is preceded by the filter that reduces origin to a generator/coroutine/async generator or None; "
                     "better_origin falls back when the candidate is not weak-referenceable.",
-        decides=["ORI-1", "ORI-2", "ORI-3"],
+        decides=["ORI-1", "ORI-2", "ORI-3", "ORI-4"],
         not_decided=["that extract_outermost(origin) recovers the frame for every frame (finding F5: origin inherited by frames inward of a running coroutine is a run-time fact)"],
         assumptions=BASE_ASSUME,
         level_text="Static check of three structural clauses; the recovery contract itself is a run-time statement and is not claimed.",
@@ -179,7 +179,7 @@ PROPS = {
         explanation="Three necessary conditions of running-stack slicing, and a sibling check: the limit-trimming condition of unwrap_stackslice as a truth table over (inner is None, outer is None): the head is kept iff only outer is given; "
                     "the argument mapping of extract_since / extract_until onto StackSlice (including the f_back walk for a frame-valued limit) and keyword-only construction of every StackSlice; "
                     "get_true_caller skips exactly stackscope's own non-test modules and the singledispatch wrapper; the three built-in unwrappers agree (running -> StackSlice(outer=frame), suspended -> (frame, awaited)).",
-        decides=["SLC-1", "SLC-2", "SLC-3", "SLC-4"],
+        decides=["SLC-1", "SLC-2", "SLC-3", "SLC-4", "SLC-5", "SLC-6", "SLC-7", "SLC-8"],
         not_decided=["all index arithmetic (index(inner) - 1, [to_idx:from_idx:-1], greenlet stitching, try_from): run-time list positions", "other-thread slices (outside the property's quantifier; see DESIGN.md observations)"],
         assumptions=BASE_ASSUME,
         level_text="Thin static check: truth tables and argument-mapping agreement. Necessary conditions only; the off-by-one surface of the slicing arithmetic is not decided by any sound static argument in reach.",
@@ -205,7 +205,7 @@ PROPS = {
         explanation="Shape facts of the tree formatter: every prefix marker is chosen by `<ascii> if opts.ascii_only else <unicode>` with an ASCII, 2-character counterpart, the unicode->ascii map is a function across the three _format methods, unicode markers of one method are pairwise distinct, "
                     "and Frame._format recognises child-context lines by exactly the marker Context._format emits; all four visibility tests are `hide and not show_hidden` (truth tables); in every loop over a sub-component's lines each line reaches lines.append(marker + line) on every path; "
                     "every produced line is newline-terminated; format forwards its options by name and str() joins format(); contexts are rendered iff show_contexts.",
-        decides=["FMT-1", "FMT-2", "FMT-3", "FMT-5", "FMT-7"],
+        decides=["FMT-1", "FMT-2", "FMT-3", "FMT-5", "FMT-7", "FMT-17"],
         not_decided=["unambiguous read-back of the tree", "blank-line logic (did_blank)", "startswith(child indicator) applied to already-prefixed text"],
         assumptions=BASE_ASSUME,
         level_text="Thin static check of five shape facts of the formatter; the parse-back property is not claimed.",
@@ -248,7 +248,7 @@ PROPS = {
                     "the two calls are the exclusive arms of one if/elif with the module-provided one first; registry accesses, the scan loop and the calls are covered by glue_lock at every call site; "
                     "failures only warn and the scan loop cannot be left early; the length cache is written after the scan, inside the lock, from the snapshot taken before it; at decoration time glue runs only under a condition implying the module is imported and is otherwise pending; "
                     "the fast-path predicate is inspected for depending on sys.modules only through len() (open known finding F4).",
-        decides=["GLUE-1", "GLUE-2", "GLUE-3", "GLUE-4", "GLUE-5", "GLUE-6", "GLUE-7", "GLUE-8", "DEF-1"],
+        decides=["GLUE-1", "GLUE-2", "GLUE-3", "GLUE-4", "GLUE-5", "GLUE-6", "GLUE-7", "GLUE-8", "GLUE-12", "GLUE-13", "DEF-1"],
         not_decided=["'by the time the first extraction returns' under preemption between the fast path and the lock (argued from GLUE-3/5, not explored)"],
         assumptions=BASE_ASSUME + ["module import is serialised by the import lock (registration at decoration time happens during import of stackscope._glue)"],
         level_text="Static protocol check (ordering, exclusivity, lock coverage, containment, cache-write position, who-may-call). Found N2 (eager glue bypassing the installer), repaired in /repo; F4 (len-only fast path) is listed as an open known finding.",
@@ -263,7 +263,7 @@ PROPS = {
                     "unwrapped item's place in order, one level deeper, and the queue is drained before a frame is elaborated (ENG-3, ENG-4); the only bound on the chain is the counter of unwraps *without progress*, reset at every "
                     "frame (ENG-1: chains of any depth); the block conditional on with_contexts neither leaves the iteration nor touches the queues (ENG-6: same frames with contexts on or off); hook results are never tested "
                     "for truthiness (TRUTH-1).",
-        decides=["SLC-4", "ENG-1", "ENG-3", "ENG-4", "ENG-6", "TRUTH-1", "VER-5"],
+        decides=["SLC-4", "ENG-1", "ENG-3", "ENG-4", "ENG-6", "TRUTH-1", "TRUTH-2", "ASEND-1", "VER-5"],
         not_decided=["that the run-time object graph (cr_await / gi_yieldfrom / gc.get_referents) links the frames an exception would traverse", "line numbers", "leaf and root values"],
         assumptions=BASE_ASSUME + FACT_ASSUME,
         level_text="Thin static check: necessary structural conditions of the chain walk only; equality with the exception path is not decided.",
@@ -276,9 +276,9 @@ PROPS = {
         explanation="Thin: structural necessary conditions in the Trio glue. A nursery context's obj is manager._nursery and its children are exactly [extract_child(t, for_task=True) for t in that nursery's child_tasks] "
                     "(unfiltered, in order); a Task unwraps to task.coro (TRIO-1); extract_child(for_task=True) returns a stub exactly when recursion was not requested (OPT-5/6); the worker thread of to_thread.run_sync is matched "
                     "by identity of the name object, not by its value (THR-2); the search for the Trio runner skips thread-local dicts without a 'runner' entry instead of failing (TRIO-2).",
-        decides=["TRIO-1", "TRIO-2", "THR-2", "OPT-5", "OPT-6"],
+        decides=["TRIO-1", "TRIO-2", "THR-2", "OPT-5", "OPT-6", "LOC-1", "ENG-1", "EXI-2"],
         not_decided=["isomorphism with Trio's live task tree", "stitching across thread hops for any alternation depth", "locals of Trio's own frames (a third-party implementation detail)"],
-        assumptions=BASE_ASSUME,
+        assumptions=BASE_ASSUME + ["LOC-1 reads (never imports) the trio / greenback sources installed for the interpreter that runs the check (/venv); where a distribution is absent the comparison is skipped and said so in the evidence"],
         level_text="Thin static check: four structural clauses of the Trio glue; the tree isomorphism itself is not decided.",
         level_note="Thin.",
         technique="static analysis: shape / provenance rules on the Trio glue functions, truth table of extract_child's stub condition",
@@ -289,9 +289,9 @@ PROPS = {
         explanation="Thin: unwrap_greenlet as a truth table over its four tests (no frame / alive / is the calling greenlet / has a parent): suspended -> StackSlice(inner=gr_frame); dead or unstarted -> no frames; "
                     "running but not the caller's -> RuntimeError before anything is taken from the caller's own stack; the caller's greenlet -> its own part of the running stack (GRN-1); greenlet_getcurrent is greenlet's own "
                     "getcurrent whenever greenlet is importable, the placeholder only under except ImportError (GRN-2); the walk through greenlet parents ends when there is no parent, not when a greenlet has no frame (SLC-6).",
-        decides=["GRN-1", "GRN-2", "SLC-6"],
+        decides=["GRN-1", "GRN-2", "SLC-6", "LOC-1"],
         not_decided=["greenback bridges (await_ / shim elaborators: run-time f_locals of third-party frames)", "frame identity along f_back chains", "finding F8"],
-        assumptions=BASE_ASSUME,
+        assumptions=BASE_ASSUME + ["LOC-1 reads (never imports) the trio / greenback sources installed for the interpreter that runs the check (/venv); where a distribution is absent the comparison is skipped and said so in the evidence"],
         level_text="Thin static check: the lifecycle case table of unwrap_greenlet and two binding / walk clauses; greenback bridging is not decided.",
         level_note="Thin.",
         technique="static analysis: abstract evaluation of unwrap_greenlet under every assignment of its tests, binding-site rule, loop-control rule",
